@@ -195,3 +195,10 @@ func IteI(c bool, a, b int64) int64 {
 	}
 	return b
 }
+
+// IntRange is Int64 with the stated inclusive range (assumed).
+func IntRange(name string, lo, hi int64) int64 {
+	v := Int64(name)
+	Assume(v >= lo && v <= hi)
+	return v
+}
